@@ -43,6 +43,10 @@ CHECKS = {
                   "one fault at a solver-chosen position (dropped member, foreign / unknown tag, symbolic value against enumeration or type, "
                   "plain-vs-group, group member order / first / foreign / missing member at every nesting depth), statelessness of the schema "
                   "object, and rotations / transpositions of the <components> declarations."),
+    "C06": ("2 (C06)", "The real _process_resend over journals built by real sends (application / session messages, holes, leftovers of an "
+                  "earlier resend) with BeginSeqNo / EndSeqNo symbolic over a window containing 0, negatives, the journaled range and "
+                  "beyond, and a symbolic replay decision per message; the reply is compared with an independent reference chain, counters, "
+                  "state and journal rows outside the range must be unchanged."),
     "C08": ("2 (C08)", "Operation sequences on the real Journaler (FakeSQLite) with the crash slot as a solver variable over every point "
                   "before/after every SQL statement and commit, plus normal close; after the crash a fresh Journaler must show a state "
                   "at an operation boundary. Counterexamples and sampled witnesses are re-run on the real sqlite3 with os._exit in a child."),
